@@ -511,6 +511,15 @@ package lib
 //@ func handleConnectingTpReg(regManager *RegistrationManager, reg *DecoyRegistration, logger *log.Logger)
 //@   assigns memory
 //@   trusted
+// C17 (connecting transports, e.g. DTLS): the goroutine that serves a registration logs only GeoIP lookup errors - which
+// never carry the looked-up registrant address (proved in pkg/station/geoip) - and never the error of the transport's
+// Connect, whose text names the client's address (it dials the client).
+//@ func handleConnectingTpReg$1(transport ConnectingTransport)
+//@   atcall Errorln before: assert @C17: err == nil || addrFree(err)
+//@   atcall ConnectingTransport).Connect after: snap connErr := res1
+//@   atcall Errorln before: assert @C17: !defined(connErr)
+//@   ensures @C17: true
+//@   checks structure
 
 // ---------------- building a registration from a wrapper (C10 family rule, C12 station side, C11 safety) ----------------
 
